@@ -122,6 +122,18 @@ def _valid_entry(obj):
             "metadata": obj["metadata"], "raw_metadata": raw}
 
 
+def _depth(v):
+    best, stack = 0, [(v, 0)]
+    while stack:
+        x, d = stack.pop()
+        if isinstance(x, (list, dict)):
+            d += 1
+            best = max(best, d)
+            for y in (x.values() if isinstance(x, dict) else x):
+                stack.append((y, d))
+    return best
+
+
 def parse_line(raw_line):
     """One line (without its newline) -> ('rec', entry, body_text) | ('empty'|'bad8'|'junk',)"""
     line = raw_line
@@ -145,6 +157,8 @@ def parse_line(raw_line):
     e = _valid_entry(obj)
     if e is None:
         return ("junk",)
+    if _depth(obj) > 127:
+        return ("junk",)        # beyond the 128-level recursion limit of the readers' JSON parser
     return ("rec", e, fields[1])
 
 
